@@ -25,10 +25,14 @@ CFG_FLAGS = {
     "devchecks": ["-DADA_DEVELOPMENT_CHECKS=1"],
     "capi": ["-DVK_WITH_CAPI=1"],
     "amalgamated": ["-DVK_AMALGAMATED=1"],
+    # url_aggregator::buffer is moved to a heap block (reserve) before the state is loaded, so that every
+    # symbolic-offset access of the editors hits a flat byte array instead of the SSO bytes embedded in the object
+    "reserve": ["-DVK_RESERVE=40"],
 }
 
-CBMC_CHECKS = ["--bounds-check", "--pointer-check", "--div-by-zero-check", "--undefined-shift-check",
-               "--signed-overflow-check", "--conversion-check"]
+STR_REPLACE = "_ZNSt7__cxx1112basic_stringIcSt11char_traitsIcESaIcEE10_M_replaceEmmPKcm"
+STR_MUTATE = "_ZNSt7__cxx1112basic_stringIcSt11char_traitsIcESaIcEE9_M_mutateEmmPKcm"
+STR_STUBS = [STR_REPLACE, STR_MUTATE]
 CBMC_CHECKS = ["--bounds-check", "--pointer-check", "--div-by-zero-check", "--undefined-shift-check",
                "--signed-overflow-check"]
 
@@ -53,7 +57,7 @@ class Obl:
     def __init__(self, name, harness, units, defs=None, unwind=8, unwindset=(), tiers=("quick", "thorough"),
                  timeout=None, mem_gb=6, backend=None, witness=True, extra_flags=(), props=(),
                  expect_known=None, note="", checks=True, replay=True, maxcpy=32, group=None, weight=1,
-                 no_heap=True, helper_unwind=34):
+                 no_heap=True, helper_unwind=34, str_max=16):
         self.name, self.harness, self.units = name, harness, list(units)
         self.defs = dict(defs or {})
         self.unwind, self.unwindset, self.tiers = unwind, tuple(unwindset), tiers
@@ -61,7 +65,7 @@ class Obl:
         self.witness, self.extra_flags, self.props = witness, tuple(extra_flags), tuple(props)
         self.expect_known, self.note, self.checks, self.replay = expect_known, note, checks, replay
         self.maxcpy = maxcpy
-        self.no_heap, self.helper_unwind = no_heap, helper_unwind
+        self.no_heap, self.helper_unwind, self.str_max = no_heap, helper_unwind, str_max
         self.group = group or name
         self.weight = weight
 
@@ -266,9 +270,12 @@ class Engine:
         inits = " ".join(f"{u.prefix}ll2c_init_globals();" for u in obl.units)
         lines.append(f"#define VK_INIT_ALL() do {{ {inits} }} while (0)")
         lines.append(f'#include "{VERIF}/models/models.c"')
+        if any(STR_REPLACE in u.stubs for u in obl.units):
+            lines.append(f"#define VK_STR_MAX {obl.str_max}")
+            lines.append(f'#include "{VERIF}/models/string_model.c"')
         lines.append(f'#include "{VERIF}/harness/{obl.harness}"')
         if mode != "cbmc":
-            lines.append("int vk_fail_count = 0;\nint main(void) { harness(); if (vk_fail_count) { printf(\"REPLAY: %d check(s) failed\\n\", vk_fail_count); return 1; } printf(\"REPLAY: all checks passed\\n\"); return 0; }")
+            lines.append("int vk_fail_count = 0;\nvoid vk_skip(const char* why) { printf(\"ASSUME-FALSE: %s\\n\", why); exit(3); }\nint main(void) { harness(); if (vk_fail_count) { printf(\"REPLAY: %d check(s) failed\\n\", vk_fail_count); return 1; } printf(\"REPLAY: all checks passed\\n\"); return 0; }")
         path = os.path.join(self.work, f"{obl.name}.{mode}.c")
         open(path, "w").write("\n".join(lines) + "\n")
         return path
@@ -290,6 +297,8 @@ class Engine:
                 f"ll2c_memset_c.0:{4*obl.maxcpy+1}",
                 f"X_memchr.0:{hl}", f"X_memcmp.0:{hl}", f"X_bcmp.0:{hl}", f"X_strlen.0:{hl}",
                 f"h_eq.0:{hl}", f"h_copy.0:{hl}", f"h_exact.0:{hl}"]
+        mr = "X_" + STR_REPLACE
+        sets += [f"{mr}.0:{obl.str_max+1}", f"{mr}.1:{obl.str_max+1}", f"{mr}.2:{obl.str_max+1}"]
         for u in obl.units:
             try:
                 txt = open(self.translate(u)).read()
@@ -372,6 +381,10 @@ class Engine:
                 res.status = "undecided"
             return
         res.nprops = len(results)
+        other = [r for r in results if r.get("status") not in ("SUCCESS", "FAILURE")]
+        if other:
+            res.status, res.detail = "undecided", f"cbmc left {len(other)} propert(ies) undecided ({other[0].get('status')}); out of memory / solver error"
+            return
         fails, wit = [], None
         for r in results:
             desc = r.get("description", "")
@@ -586,7 +599,7 @@ class MemSem:
 
 
 def is_soft_ub(desc):
-    return desc.startswith("pointer relation") or desc.startswith("pointer arithmetic") or "pointer outside object bounds in" in desc and "dereference" not in desc
+    return desc.startswith("pointer relation") or desc.startswith("pointer arithmetic") or desc.startswith("same object violation") or "pointer outside object bounds in" in desc and "dereference" not in desc
 
 
 # ---------------------------------------------------------------- trace decoding
